@@ -143,7 +143,6 @@ fn amino_codes() -> Vec<u8> {
 }
 
 pub fn run_c15<A: Cx>(d: &mut Drv<A>, scale: usize) {
-    assert!(matches!(A::NAME, "dna" | "iupac"));
     let aminos = amino_codes();
     for round in 0..scale.max(1) {
         let clen = 1 + round % 4; // codon lengths 1..4
